@@ -209,6 +209,22 @@ func fileContent(format, what string) []byte {
 			"bed":  "a\t0\t1\nb\tx\t2\nc\t3\t4\n", "newick": "(a,b);(c;(d,e);"}[format]
 		return []byte(bad)
 	default:
+		if n, ok := strings.CutPrefix(what, "long-lines-of-every-kind:"); ok {
+			// every KIND of line the format has, made longer than the reader's buffers: header and comment
+			// lines before and after the first record, name lines, '+' lines, quoted names
+			var l int
+			fmt.Sscan(n, &l)
+			long := string(longSeq(l))
+			aln := "q%d\t0\tr\t1\t9\t1M\t*\t0\t0\tA\tI\n"
+			text := map[string]string{
+				"fasta":  ">" + long + "\nAC\n>b " + long + "\n" + long + "\n>c\nGT\n",
+				"fastq":  "@" + long + "\nAC\n+" + long + "\nII\n@b\nG\n+\nI\n",
+				"sam":    "@HD\tVN:1.6\n@CO\t" + long + "\n@PG\tID:x\tCL:" + long + "\n" + fmt.Sprintf(aln, 0) + "@CO\tlate " + long + "\n" + fmt.Sprintf(aln, 1),
+				"samh":   "@HD\tVN:1.6\n@CO\t" + long + "\n@PG\tID:x\tCL:" + long + "\n" + fmt.Sprintf(aln, 0) + "@CO\tlate " + long + "\n" + fmt.Sprintf(aln, 1),
+				"bed":    long + "\t0\t1\tn\nb\t2\t3\t" + long + "\nc\t4\t5\tm\n",
+				"newick": "('" + long + "':1,c)r;\n(d,'" + long + " " + long + "');\n(e);\n"}[format]
+			return []byte(text)
+		}
 		if n, ok := strings.CutPrefix(what, "begins-with:"); ok {
 			var i int
 			fmt.Sscan(n, &i)
@@ -602,10 +618,10 @@ func runC06(r *core.Run) {
 			return core.Outcome{Class: fmt.Sprint("end1%4096=", min(c.End1%4096, 2), " items=", min(len(got), 2)), Nontrivial: true, Evals: 2}
 		})
 
-	core.Clause(r, "file-grid", core.Opts{Rule: "every format (SAM: File and FileHeader) x {plain, .gz written with compress/gzip} x content {empty file, one record, many records, a file whose decode ends in an error item, the 9 KiB file, the long-line file, a file with one line of 70 000 bytes, one with a line of 2 MiB, a ~300 KiB file, files that begin with the magic number of another file type or with a broken gzip header} plus a multi-member .gz: File(path) yields what Reader yields on the bytes; a missing path yields exactly one item, an error - also when its compressed or uncompressed twin, a backup, another compression or an upper-case twin exists next to it; names with a meaning for command-line tools or URL-aware openers (\"-\", the empty name, \"stdin\", \"~\", http:// and file:// URLs) are ordinary missing paths; how the path reaches the file plays no role (blanks and non-ASCII in it, a directory whose name ends in .gz, a symbolic link, a relative path, dot segments); non-trivial = all"},
+	core.Clause(r, "file-grid", core.Opts{Rule: "every format (SAM: File and FileHeader) x {plain, .gz written with compress/gzip} x content {empty file, one record, many records, a file whose decode ends in an error item, the 9 KiB file, the long-line file, a file with one line of 70 000 bytes, one with a line of 2 MiB, a ~300 KiB file, files that begin with the magic number of another file type or with a broken gzip header, files in which every kind of line the format has (header and comment lines before and after the first record, name lines, '+' lines, quoted names) is 4090, 5000 or 70 000 bytes long} plus a multi-member .gz: File(path) yields what Reader yields on the bytes; a missing path yields exactly one item, an error - also when its compressed or uncompressed twin, a backup, another compression or an upper-case twin exists next to it; names with a meaning for command-line tools or URL-aware openers (\"-\", the empty name, \"stdin\", \"~\", http:// and file:// URLs) are ordinary missing paths; how the path reaches the file plays no role (blanks and non-ASCII in it, a directory whose name ends in .gz, a symbolic link, a relative path, dot segments); non-trivial = all"},
 		func(emit func(c06File) bool) {
 			for _, f := range formats {
-				for _, what := range append(fileBeginningNames(), "empty", "one", "many", "error", "error-middle", "large", "longline", "line-70KiB", "line-2MiB", "huge", "gzip-magic", "zstd-magic", "gzip-bytes", "missing", "missing-next-to-compressed-twin", "missing-next-to-plain-twin", "missing-next-to-backup", "missing-next-to-other-compression", "missing-next-to-upper-case-twin", "missing-special-name:-", "missing-special-name:", "missing-special-name:stdin", "missing-special-name:/dev/stdin/x", "missing-special-name:~", "missing-special-name:http://example.org/x.fa", "missing-special-name:file:///etc/hostname", "path:space-and-unicode", "path:dir-named-like-gz", "path:symlink", "path:relative", "path:dot-segments") {
+				for _, what := range append(fileBeginningNames(), "long-lines-of-every-kind:4090", "long-lines-of-every-kind:5000", "long-lines-of-every-kind:70000", "empty", "one", "many", "error", "error-middle", "large", "longline", "line-70KiB", "line-2MiB", "huge", "gzip-magic", "zstd-magic", "gzip-bytes", "missing", "missing-next-to-compressed-twin", "missing-next-to-plain-twin", "missing-next-to-backup", "missing-next-to-other-compression", "missing-next-to-upper-case-twin", "missing-special-name:-", "missing-special-name:", "missing-special-name:stdin", "missing-special-name:/dev/stdin/x", "missing-special-name:~", "missing-special-name:http://example.org/x.fa", "missing-special-name:file:///etc/hostname", "path:space-and-unicode", "path:dir-named-like-gz", "path:symlink", "path:relative", "path:dot-segments") {
 					for _, gz := range []bool{false, true} {
 						emit(c06File{f.Name, what, gz})
 					}
